@@ -276,10 +276,11 @@ def run(ctx):
                      name="edges-asbuilt", count_states=False, timeout=3000)
     # summon waits
     sbin = ctx.go_build("summon")
-    f_sm = ex.submit(ctx.tlc, "MC_Summon", cfg_text=sc.mc_cfg(2, 2, 2, 3, None, "INVARIANTS TypeOK NoStuck ParkedHasOwner ParkedConsistent\nPROPERTIES SummonTerminates\n"),
-                     name="mc-summon-2s2c", workers=4, timeout=6000)
+    smc = (2, 2, 2, 3) if thorough else (2, 1, 2, 2)      # (C18's quick tier checks 2 summoners x 2 calls with liveness as well)
+    f_sm = ex.submit(ctx.tlc, "MC_Summon", cfg_text=sc.mc_cfg(*smc, None, "INVARIANTS TypeOK NoStuck ParkedHasOwner ParkedConsistent\nPROPERTIES SummonTerminates\n"),
+                     name="mc-summon", workers=4, timeout=6000)
     f_se = ex.submit(sc.export_schedules, ctx, 3, 1, 1, 3, "edges-summon-3s")
-    f_se2 = ex.submit(sc.export_schedules, ctx, 2, 1, 2, 2, "edges-summon-2s-close")
+    f_se2 = ex.submit(sc.export_schedules, ctx, 2, 1, 2, 2, "edges-summon-2s-close") if thorough else None
     f_asb = f_asb_live = None
     if thorough:
         f_asb = ex.submit(ctx.tlc, "MC_Vigil", cfg_text=mc_cfg(ops2, w2, 2, DEV, INV + LIVE), name="mc-asbuilt-witness", count_states=False,
@@ -377,7 +378,7 @@ def run(ctx):
         raise vlib.Inconclusive("strict Summon spec does not satisfy NoStuck / SummonTerminates: %s %s" % (r.violated, (r.error or "")[:300]))
     ctx.extra["mc_summon"] = r.summary()
     se, si = f_se.result()
-    se2, si2 = f_se2.result()
+    se2, si2 = f_se2.result() if f_se2 else ([], {})
     ctx.extra["summon_graphs"] = dict(three_summoners=si, two_summoners_with_close=si2)
     # schedules in which somebody's context is cancelled first (they exercise the exits of the wait loop), then the rest
     canc = [t for t in se if any(c["a"] == "Cancel" for c in t)]
